@@ -20,7 +20,7 @@ def c18_jobs(tier):
     q = tier == 'quick'
     return [job('composite-plain-t1', 'c18', 'plain', threads=1, shards=8, timeout=3600),
             job('composite-asan-t1', 'c18', 'asan', threads=1, shards=8, timeout=5400),
-            job('composite-plain-t4', 'c18', 'plain', threads=4, shards=2, args=['--sub', 'schur_exact,cpr,cpr_drs,deflated', '--stride=%d' % (3 if q else 5)], timeout=3600)]
+            job('composite-plain-t4', 'c18', 'plain', threads=4, shards=2, args=['--sub', 'schur_exact,cpr,deflated', '--stride=%d' % (3 if q else 5)], timeout=3600)]
 PROPS['C18'] = dict(
     level='exploration', jobs=c18_jobs,
     rule='G8 systems from seeded generators: saddle-point matrices [[A,B1],[B2,C]] (6..40 unknowns, A dominant, B2 = B1^T or independent, C absent / -cI / dominant / explicitly stored zero diagonal) scattered by interleaved, prefix, suffix and random pressure masks given as struct, pattern string or pointer, all of type 1/2 x adjust_p 0/1/2 x simplec_dia x approx_schur; multi-phase block systems (block size 2..4, 2..14 cells, optional unstructured tail with active_rows) for cpr / cpr_drs with identity, SPAI-0 and exact global stage, thresholds and weights; 5-point / 9-point / 7-point diffusion and upwind convection-diffusion (200..1500 unknowns) with 1..5 deflation vectors for deflated_solver with AMG, SPAI-0 and identity preconditioners and CG / BiCGStab. Every case is non-trivial (np, nu > 0; at least two cells); distinct = distinct (sub-check, descriptor) hash.',
